@@ -38,8 +38,9 @@ META = {
             'offered live (two configurations, plus clients restricted by each single settings word): every ServerHello on '
             'the wire is judged, completed handshakes are compared with the parsed meaning inside Coq (and by a Python twin) '
             'including, for TLS 1.3, a KeyUpdate each way checked against an independent hashlib/hmac HKDF chain and '
-            'wire-level decryption, post-handshake authentication, PSK resumption and the exporter; non-negotiable pairs '
-            'must fail. The live stage runs even when the translator refuses or the proof breaks.',
+            'wire-level decryption, post-handshake authentication, PSK resumption and the exporter; TLS<=1.2 resumption by '
+            'session ID and ticket incl. a server answering with another suite and a client offering only another suite; '
+            'TLS 1.3 external PSKs of one or both hashes in both orders; non-negotiable pairs must fail. The live stage runs even when the translator refuses or the proof breaks.',
     'note': 'Trusted: Coq kernel + vm_compute; Spec/Iana.v (my transcription of the registry and naming conventions; '
             'cross-checked against CipherSuite.ietfNames and a Python twin); translator/units_suites.py (calls the real '
             'functions; the candidate-list composition and the key-exchange dispatch of tlsconnection.py are read from its ast '
@@ -257,7 +258,7 @@ def obs_lit(r):
     w = r['wire']
     return ('{| o_sid := %s; o_ver := %s; o_sh_suite := %s; o_sh_ver := %s; o_wire_cert := %s; o_wire_kx := %s; '
             'o_ske_signed := %s; o_sigalg := %s; o_cli := %s; o_srv := %s; o_fact := %s; o_prfs := %s; o_hkdf := %s; '
-            'o_n := %s; o_c2s := %s; o_s2c := %s; o_exp_same := %s; o_exp_kind := %s; o_post := %s |}' % (
+            'o_n := %s; o_c2s := %s; o_s2c := %s; o_exp_same := %s; o_exp_kind := %s; o_post := %s; o_resumed := %s |}' % (
                 zlit(r['sid']), zlit(r['ver']), zlit(w['sh_suite']), zlit(w['sh_ver']), ostr(w['wire_cert']),
                 vlib.strlit(w['wire_kx']), boollit(w['ske_signed']), vlib.strlit(w['sigalg']),
                 side_lit(r['cli']), side_lit(r['srv']),
@@ -265,7 +266,34 @@ def obs_lit(r):
                 listlit(r['prfs'], vlib.strlit), listlit(r['hkdf'], vlib.strlit),
                 zlit(r['n']), listlit(r['c2s'], zlit), listlit(r['s2c'], zlit),
                 boollit((r.get('exporter') or {}).get('same', False)), vlib.strlit((r.get('exporter') or {}).get('kind', '')),
-                optlit(r.get('post'), post_lit)))
+                optlit(r.get('post'), post_lit), boollit(is_resumed(r))))
+
+
+def is_resumed(r):
+    return bool((r.get('resume') or {}).get('resumed', [False])[0])
+
+
+def psk_lit(r):
+    k = r['psk']
+    return '{| k_suite := %s; k_configured := %s; k_selected := %s; k_srv := %s; k_cli := %s |}' % (
+        zlit(r['wire']['sh_suite']), listlit(r['psks'], vlib.strlit), optlit(k.get('selected'), zlit),
+        listlit(k['srv'], vlib.strlit), listlit(k['cli'], vlib.strlit))
+
+
+def py_psk(r):
+    """twin of chk_pskobs: reasons why a TLS 1.3 external-PSK handshake disagrees with the suite's name"""
+    m = iana.meaning(r['wire']['sh_suite'])
+    if m is None:
+        return ['no meaning']
+    h, k, why = iana.prf_at(m, (3, 4)), r['psk'], []
+    i = k.get('selected')
+    if i is not None and (i >= len(r['psks']) or r['psks'][i] != h):
+        why.append('ServerHello selects PSK identity %d, provisioned for %s' % (i, r['psks'][i] if i < len(r['psks']) else '?'))
+    if k['srv'] != [h]:
+        why.append('server key schedule/binder check used %s' % k['srv'])
+    if k['cli'] != [h]:
+        why.append('client key schedule used %s' % k['cli'])
+    return why
 
 
 def post_ok_flags(p):
@@ -319,7 +347,10 @@ def py_live(r):
         bad.append('chk_live_version')
     kxw = {'RSA': 'rsa', 'DHE': 'dhe', 'ECDHE': 'ecdhe', 'SRP': 'srp', 'TLS13': 'tls13'}.get(m['kx'], 'static')
     signed = m['kx'] not in ('RSA', 'TLS13') and m['auth'] not in ('anon', 'SRP')
-    if not (w['wire_kx'] == kxw and (v == 4 or (w['ske_signed'] == signed and w['wire_cert'] == cert
+    if is_resumed(r):
+        if w['wire_kx'] != 'resumed':
+            bad.append('chk_kx')
+    elif not (w['wire_kx'] == kxw and (v == 4 or (w['ske_signed'] == signed and w['wire_cert'] == cert
                                                  and r['cli']['srv_cert'] == cert and w['sigalg'] in ('', cert)))):
         bad.append('chk_kx')
     okc = True
@@ -376,7 +407,8 @@ def meaning_codes(m):
 
 def brief(r):
     keep = {k: r.get(k) for k in ('sid', 'ver', 'cfg', 'ok', 'outcome', 'wire', 'cli', 'srv', 'fact', 'prfs', 'hkdf',
-                                  'c2s', 's2c', 'n', 'error', 'variant', 'exporter', 'post', 'words', 'cred', 'asked')}
+                                  'c2s', 's2c', 'n', 'error', 'variant', 'exporter', 'post', 'words', 'cred', 'asked',
+                                  'resume', 'psk', 'psks', 'case')}
     return keep
 
 
@@ -410,6 +442,31 @@ def live_cases(ctx, d, quick):
                               'n': 1000, 'expect': exp, 'seed': ctx.rng.randrange(1 << 30)})
                 cases.append({'sid': sid, 'ver': (3, vi), 'cfg': 'client-pinned', 'variant': 'n=20000', 'n': 20000,
                               'expect': exp, 'seed': ctx.rng.randrange(1 << 30)})
+    # TLS <= 1.2 resumption of every negotiable pair: honest by session ID and by ticket; a server that answers with
+    # another offered suite (its cache entry rewritten); a client that offers the session but only another suite
+    for sid in ids:
+        m = iana.meaning(sid)
+        if m['kx'] not in ('RSA', 'DHE', 'ECDHE', 'SRP'):
+            continue
+        for vi in range(4):
+            exp = None if negset is None else ((sid, vi) in negset)
+            if exp is False or not iana.defined_in(m, (3, vi)):
+                continue
+            alts = [x for x in ids if x != sid and (iana.meaning(x)['kx'], iana.meaning(x)['auth']) == (m['kx'], m['auth'])
+                    and iana.defined_in(iana.meaning(x), (3, vi)) and (negset is None or (x, vi) in negset)]
+            alts.sort(key=lambda x: ((iana.meaning(x)['cipher'], iana.meaning(x)['keylen']) == (m['cipher'], m['keylen']), x))
+            alt = alts[0] if alts else None
+            for mode in ('sid', 'ticket') + (('srv-deviates', 'cli-deviates') if alt is not None else ()):
+                cases.append({'sid': sid, 'ver': (3, vi), 'cfg': 'client-pinned', 'resume': mode, 'alt': alt, 'expect': exp,
+                              'seed': ctx.rng.randrange(1 << 30)})
+    # TLS 1.3 with externally provisioned PSKs bound to one hash or to both, in both orders, with and without a certificate
+    for sid in ids:
+        if iana.meaning(sid)['kx'] != 'TLS13':
+            continue
+        for psks in (['sha256'], ['sha384'], ['sha256', 'sha384'], ['sha384', 'sha256']):
+            for cert in (True, False):
+                cases.append({'sid': sid, 'ver': (3, 4), 'cfg': 'client-pinned', 'psks': psks, 'cert': cert, 'post': False,
+                              'expect': None, 'seed': ctx.rng.randrange(1 << 30)})
     # clients restricted by one settings word, every version allowed on both sides, nothing cut from the offer
     for field, words in WORD_FIELDS:
         for w in words:
@@ -521,14 +578,21 @@ def run(ctx):
     cases = live_cases(ctx, d, quick)
     with multiprocessing.Pool(vlib.NPROC) as pool:
         results = pool.map(c20_live.run_case, cases, chunksize=4)
-    ctx.log('live: %d handshakes (%d expected to complete, %d expected to fail, %d judged from the registry alone)'
-            % (len(results), sum(1 for c in cases if c['expect'] is True), sum(1 for c in cases if c['expect'] is False),
-               sum(1 for c in cases if c['expect'] is None)))
+    plain = [c for c in cases if not (c.get('resume') or c.get('psks') or c.get('words'))]
+    ctx.log('live: %d cases (%d expected to complete, %d expected to fail, %d judged from the registry alone; %d word clients, '
+            '%d resumption sequences, %d external-PSK handshakes)'
+            % (len(results), sum(1 for c in plain if c['expect'] is True), sum(1 for c in plain if c['expect'] is False),
+               sum(1 for c in plain if c['expect'] is None), sum(1 for c in cases if c.get('words')),
+               sum(1 for c in cases if c.get('resume')), sum(1 for c in cases if c.get('psks'))))
     good = []
+    psk_results, resume_notes = [], {}
     for c, r in zip(cases, results):
         r['variant'] = c.get('variant')
         r['asked'] = {'sid': c.get('sid'), 'ver': list(c['ver']) if c.get('ver') else None}
+        r['case'] = {k: (list(v) if isinstance(v, tuple) else v) for k, v in c.items() if k != 'expect'}
         w = r.get('wire') or {}
+        if c.get('resume') and r.get('resume') is None:
+            continue            # the first connection did not complete: the plain case of this pair reports on that
         # (a) whatever ServerHello the server put on the wire, completed handshake or not
         if w.get('sh_suite', -1) >= 0:
             m2 = iana.meaning(w['sh_suite'])
@@ -538,6 +602,34 @@ def run(ctx):
                                       'version does not define%s' % (r['cfg'], w['sh_ver'], w['sh_suite'], iana.name_of(w['sh_suite']),
                                                                      '' if r['ok'] else ' (the client then aborted: %s)' % (r.get('outcome') or ['?'])[0]),
                                       {'kind': 'live', 'case': brief(r), 'how': './check C20 --replay <this file>'}) or found
+        if c.get('psks'):
+            ctx.count('live(TLS 1.3 external PSKs)', 1, [(r['sid'], tuple(c['psks']), c['cert'], r['ok'], (r.get('psk') or {}).get('selected'))])
+            psk_results.append(r)
+            continue
+        if c.get('resume'):
+            info = r['resume']
+            mode = info['mode']
+            ctx.count('live(TLS<=1.2 resumption)', 1, [(r['sid'], r['ver'], mode, r['ok'], tuple(info.get('resumed', ())))])
+            if not r['ok']:
+                if mode in ('sid', 'ticket'):
+                    k_ = (mode, str(r.get('outcome')))
+                    resume_notes[k_] = resume_notes.get(k_, 0) + 1
+                continue
+            res_c, res_s = info['resumed']
+            if (res_c or res_s) and (w.get('sh_suite') != info['session_suite'] or mode == 'cli-deviates'):
+                found = ctx.violation('resumed-under-other-suite:0x%04x' % info['session_suite'],
+                                      'a session of 0x%04X %s at (3,%d) was resumed [%s] with 0x%04X %s in the ServerHello '
+                                      '(client resumed=%s, server resumed=%s); connection.getCipherName()=%r, '
+                                      'connection.session.getCipherName()=%r, session suite 0x%04X, cipher object built by %s'
+                                      % (info['session_suite'], iana.name_of(info['session_suite']), r['ver'], mode,
+                                         w.get('sh_suite', -1), iana.name_of(w.get('sh_suite')), res_c, res_s,
+                                         r['cli']['conn_cipher'], r['cli']['sess_cipher'], r['cli']['suite'], r['fact']),
+                                      {'kind': 'live', 'case': brief(r), 'how': './check C20 --replay <this file>'}) or found
+            if r.get('app_ok'):
+                good.append(r)
+            else:
+                tie_broken = tie_broken or ('resumed connection 0x%04X at (3,%d) [%s]: no application data' % (r['sid'], r['ver'], mode))
+            continue
         m = iana.meaning(r['sid']) if r['sid'] >= 0 else None
         stream = ('live(word-restricted client)' if c.get('words') else
                   'live(expected to complete)' if c['expect'] else 'live(expected to fail)' if c['expect'] is False
@@ -580,6 +672,41 @@ def run(ctx):
                                       % (field, word, r['sid'], iana.name_of(r['sid']), have, r['ver']),
                                       {'kind': 'live', 'case': brief(r)}) or found
         good.append(r)
+    for (mode, outc), n in sorted(resume_notes.items()):
+        ctx.notes.append('recorded, not raised (resumption itself is C13): %d honest %s-resumptions did not complete: %s' % (n, mode, outc))
+    # TLS 1.3 external PSKs: the selected identity's hash and every hash in use must be the suite's
+    psk_done = [r for r in psk_results if r['ok'] and r.get('psk')]
+    psk_flag = {}
+    for i, r in enumerate(psk_results):
+        if r.get('error') and not r.get('outcome'):
+            tie_broken = tie_broken or ('PSK case %s could not be run: %s' % (r['cfg'], r['error']))
+            continue
+        if (r.get('wire') or {}).get('sh_suite', -1) < 0 or not r.get('psk'):
+            continue
+        why = py_psk(r) if r['ok'] else [x for x in py_psk(r) if x.startswith('ServerHello selects')]
+        if why:
+            psk_flag[id(r)] = (r, why)
+    if psk_done and (res['model_ok'] or vlib.coq_make(['Spec/Iana.vo', 'Model/C20_Live.vo'])[0]):
+        badk, errs = vlib.coq_bad_indices('C20k', ['Spec.Iana', 'Model.C20_Live'], 'pskobs', 'chk_pskobs',
+                                          [psk_lit(r) for r in psk_done], shard=64)
+        ctx.count('psk-vs-parsed-name(vm_compute)', len(psk_done), [('cases', len(psk_done))])
+        for e in errs:
+            tie_broken = tie_broken or ('PSK case evaluation failed: ' + e[:300])
+        coq_ids = set(id(psk_done[i]) for i in badk)
+        py_ids = set(k for k, (r, _) in psk_flag.items() if r['ok'])
+        if not errs and coq_ids != py_ids:
+            tie_broken = tie_broken or 'chk_pskobs and its Python twin disagree'
+        for i in badk:
+            psk_flag.setdefault(id(psk_done[i]), (psk_done[i], ['chk_pskobs (Coq)']))
+    for r, why in psk_flag.values():
+        sh = r['wire']['sh_suite']
+        found = ctx.violation('psk-hash:0x%04x' % sh,
+                              'TLS 1.3, PSKs provisioned for %s (both ends, in this order)%s, client offering only 0x%04X %s: %s; '
+                              'the name denotes %s (server hashes %s, client hashes %s, handshake %s)'
+                              % (r['psks'], '' if r['case'].get('cert', True) else ', server without certificate', sh, iana.name_of(sh),
+                                 '; '.join(why), iana.prf_at(iana.meaning(sh), (3, 4)) if iana.meaning(sh) else '?',
+                                 r['psk']['srv'], r['psk']['cli'], 'completed' if r['ok'] else r.get('outcome')),
+                              {'kind': 'live', 'case': brief(r), 'how': './check C20 --replay <this file>'}) or found
     odd = sorted(set(r['sid'] for r in good if r['ver'] < 4 and iana.meaning(r['sid'])['auth'] in ('RSA', 'DSS', 'ECDSA')
                      and r['srv']['srv_cert'] is None))
     if odd:
@@ -643,6 +770,24 @@ def replay(ctx, path):
         r = json.load(f)
     if r.get('kind') == 'live':
         c = r['case']
+        if c.get('case') and (c['case'].get('resume') or c['case'].get('psks')):
+            cc = dict(c['case'])
+            cc['ver'] = tuple(cc['ver'])
+            out = c20_live.run_case(cc)
+            print(json.dumps(brief(out), indent=1, default=str))
+            bad = []
+            w = out.get('wire') or {}
+            if cc.get('psks'):
+                if w.get('sh_suite', -1) >= 0 and out.get('psk'):
+                    out['psks'] = cc['psks']
+                    bad = py_psk(out) if out['ok'] else [x for x in py_psk(out) if x.startswith('ServerHello selects')]
+            elif out.get('resume') and out['ok']:
+                info = out['resume']
+                if any(info['resumed']) and (w.get('sh_suite') != info['session_suite'] or info['mode'] == 'cli-deviates'):
+                    bad.append('resumed-under-other-suite')
+                bad += py_live(out)
+            print('failing checks: %s' % bad)
+            return 1 if bad else 0
         if c.get('words'):
             out = c20_live.run_case({'words': tuple(c['words']), 'cred': c.get('cred', 'rsa'), 'seed': r.get('seed', 0)})
         else:
